@@ -32,10 +32,10 @@ def dmrg_specs(draw, tier):
     return {'model': name, 'L': L, 'params': params, 'conserve': draw(st.integers(0, len(c14.MODELS[name][2]) - 1)), 'engine': draw(st.sampled_from(['two', 'two', 'single'])),
             'mixer': mixer, 'amplitude': draw(st.sampled_from([1e-5, 1e-3, 1e-2])), 'decay': draw(st.sampled_from([2.0, 1.5, 1.0])),
             'disable_after': draw(st.sampled_from([15, 3, 8, 50])), 'diag': draw(st.sampled_from(['default', 'default', 'lanczos', 'arpack', 'ED_block', 'ED_all'])),
-            'E_shift': draw(st.sampled_from([None, None, -20.0, 5.0])), 'chi_max': draw(st.sampled_from([None, None, 2, 4, 8])),
-            'chi_list': draw(st.booleans()), 'max_sweeps': draw(st.sampled_from([1, 2, 5, 30, 30])), 'N_sweeps_check': draw(st.sampled_from([1, 1, 2, 3])),
+            'E_shift': draw(st.sampled_from([None, None, None, -20.0, 5.0])), 'chi_max': draw(st.sampled_from([None, None, None, 2, 4, 8])),
+            'chi_list': draw(st.booleans()), 'max_sweeps': draw(st.sampled_from([1, 2, 5, 30, 30, 30])), 'N_sweeps_check': draw(st.sampled_from([1, 1, 2, 3])),
             'combine': draw(st.booleans()), 'seed': draw(st.integers(0, 2 ** 20)), 'max_N_for_ED': draw(st.sampled_from([400, 2])),
-            'state': 'product', 'excited': draw(st.integers(0, 5)) == 0}
+            'state': 'product', 'excited': draw(st.integers(0, 2)) == 0}
 
 
 def run_dmrg(spec):
@@ -95,7 +95,10 @@ def run_dmrg(spec):
                 raise Skip()
             raise
         require(psi_out is psi, 'returned-psi', 'run() returns another object than the psi which is optimized in place', **tags)
-        tags['mixer_on_at_end'] = eng.mixer is not None
+        # the last sweep was performed with the mixer if it is still enabled, or if it got disabled by `disable_after` right after
+        # that sweep (sweep number `disable_after` is the last one with the mixer)
+        last_sweep_mixed = eng.mixer is not None or (mixer is not None and eng.sweeps <= spec['disable_after'])
+        tags['mixer_on_at_end'] = bool(last_sweep_mixed)
         # --- soundness
         psi.test_sanity()
         require(all(np.ndim(s) == 1 for s in psi._S), 'singular-values-not-diagonal', 'S of the returned MPS is a 2D array (mixer not cleaned up)', **tags)
@@ -120,7 +123,7 @@ def run_dmrg(spec):
         # the reported energy is the one of the last local update, before its truncation (documented: sweep_stats E): compare up to
         # the reported truncation of the last sweep
         tolE = 1e-8 * max(1., nH) + 20 * nH * err * L  # err = 0 if the last sweep did not truncate
-        if not (mixer is not None and eng.mixer is not None):
+        if not last_sweep_mixed:
             require(abs(E - EH) <= tolE, 'energy-mismatch', 'E_run = %r, <psi|H|psi> = %r (max trunc_err of the last sweep %r, sweeps %d)' % (E, EH, err, eng.sweeps), shift=spec['E_shift'] is not None, **tags)
         require(E >= Eref - 1e-8 * max(1., nH) - tolE, 'E_run-below-ground-state', 'E_run = %r < E0(sector) = %r' % (E, Eref), shift=spec['E_shift'] is not None, **tags)
         # --- convergence on the validated class
@@ -148,18 +151,25 @@ def run_dmrg(spec):
         if spec['E_shift'] is not None:
             classes.append('E_shift')
         # --- excited state: a second run orthogonal to the state just found (documented `orthogonal_to`)
-        if spec.get('excited') and m >= 3 and not truncating and spec['diag'] != 'ED_all' and eng.mixer is None and EH - Eref <= 1e-6 * max(1., nH):
-            idx2 = [int(rng.integers(0, s_.dim)) for s_ in sites]
-            v2 = np.zeros([s_.dim for s_ in sites])
-            v2[tuple(idx2)] = 1.
-            if np.array_equal(qflat[np.argmax(v2.reshape(-1))], q0):
-                psi2 = MPS.from_product_state(sites, idx2, bc='finite', dtype=float, permute=False, unit_cell_width=L)
+        if spec.get('excited') and m >= 3 and not truncating and spec['diag'] != 'ED_all' and not last_sweep_mixed and EH - Eref <= 1e-6 * max(1., nH):
+            psi2 = None
+            for k2 in range(40):  # a random start state in the same charge sector
+                vec2, q2 = M.random_state(sites, spec['seed'] + 7919 * k2, cplx=False)
+                if np.array_equal(np.asarray(q2), np.asarray(q0)):
+                    psi2 = MPS.from_full(sites, M.to_npc_state(sites, vec2, q2), form='B', unit_cell_width=L)
+                    break
+            if psi2 is not None:
                 # (the energies of the states to be orthogonal to have to be below zero, documented: shift H if necessary is the
                 # user's job; we only use cases where the found energy is negative)
                 if E < -1e-6:
                     opts2 = dict(opts)
                     opts2['max_sweeps'] = 30
-                    eng2 = cls(psi2, model, opts2, orthogonal_to=[psi])
+                    ortho = psi
+                    if spec['seed'] % 2:
+                        # the same state with the total charge distributed differently over its tensors (any gauge is legal)
+                        ortho = psi.copy()
+                        ortho.gauge_total_charge()
+                    eng2 = cls(psi2, model, opts2, orthogonal_to=[ortho])
                     E2, _ = eng2.run()
                     psi2.test_sanity()
                     r2 = M.mps_to_dense(psi2).reshape(-1)
